@@ -3,7 +3,7 @@
 always matches what ./check implements)."""
 import json, subprocess
 
-HOOK_COMMITS = ["4609c65", "122e4dd"]
+HOOK_COMMITS = ["4609c65", "122e4dd", "d3b77f7"]
 
 CHECKS = {
  "C03": dict(engine="E2E", cat="fault_enumeration",
@@ -71,6 +71,10 @@ CHECKS = {
    technique="exhaustive enumeration of all 2^32 sequence-number pairs against true modular arithmetic; metamorphic relabelled-trace equality on generated scenarios",
    text="(a) SeqNr difference/ordering compared with true modular distance on every one of the 2^32 pairs (complete for |d|<32768); (b) generated lossy scenarios run twice (small ISNs vs ISNs/ids that cross 65535), wire traces and application results must be equal after relabelling. (a) is exhaustive, (b) is sampled search with the wrap region over-weighted.",
    note="trusts the reference modular-distance function (unit-tested), tokio's paused clock and the simulated network for (b)", ref="§5 C09"),
+ "C10": dict(engine="SP", cat="exploration",
+   technique="proptest-generated hostile datagram sequences (structured, damaged encodings, raw bytes, foreign and spoofed sources) from a scripted peer in every connection state, with a concurrent legitimate connection on the same socket; crash / internal-error / buffer-bound / bystander-integrity oracle; libFuzzer targets over the same oracle and over the parsers",
+   text="A scripted peer holding a connection with the socket under test sends data in and out of window, acks behind/at/beyond what was sent, any window, selective acks of 0..255 bytes, FIN/RESET/SYN in any state, crafted packets of every type with near and random ids, encodings damaged by overwrites/forced extension bytes/junk/truncation, raw bytes, datagrams from unbound addresses and spoofed from the bystander's address, interleaved with application actions and clock advances; a second real socket runs a token + keyed exchange meanwhile and opens a fresh connection afterwards. No panic in library code, no 'bug' error, no spin, buffered bytes/messages within slots x 16384, bystander complete/intact/clean EOF, fresh connection established.",
+   note="datagrams spoofed from the bystander's address never carry the bystander's own or next ids (that would be aimed at it); SYN floods beyond the 32-request queue are not asserted against", ref="§5 C10"),
  "C11": dict(engine="COMP", cat="exploration",
    technique="differential testing against an independent BEP-29 parser over an exhaustive shape grid plus proptest-generated byte strings; serialize/parse round-trip on generated headers; wire oracle on every emitted datagram",
    text="Parser totality and exact acceptance decided differentially against an independently written BEP-29 parser on ~3.8M enumerated shapes (type x version x chain shape x every truncation) and generated inputs; round trip on generated header values and buffer sizes; every datagram emitted in simulator runs is parsed by the reference parser.",
